@@ -69,8 +69,15 @@ def main():
         sh("git -C /repo worktree remove --force %s" % WT)
         # the evidence files were rewritten by runs against mutated trees: restore them from git
         sh("git -C %s checkout -- evidence" % HERE)
-    with open(resfile, "w") as f:
-        json.dump(results, f, indent=1, sort_keys=True)
+    # merge under a lock: several audits (of different properties) may run side by side
+    import fcntl
+
+    with open(resfile + ".lock", "w") as lk:
+        fcntl.flock(lk, fcntl.LOCK_EX)
+        merged = json.load(open(resfile)) if os.path.exists(resfile) else {}
+        merged.update({n: results[n] for n in names if n in results})
+        with open(resfile, "w") as f:
+            json.dump(merged, f, indent=1, sort_keys=True)
     return 0
 
 
